@@ -1,5 +1,6 @@
 import Pyunicorn.Model.Proto
 import Pyunicorn.Model.Pure
+import Pyunicorn.Model.PureWindow
 import Pyunicorn.Generated.StructC06
 /-! Line-protocol driver for C06. -/
 open Pyunicorn Pyunicorn.Proto Pyunicorn.Pure Pyunicorn.Generated
@@ -16,8 +17,31 @@ def parsePairs (s : String) : List (Nat × Nat) :=
     | [a, b] => do some ((← a.toNat?), (← b.toNat?))
     | _ => none
 
+def stepLetter : WStep → String
+  | .mask => "m" | .edit => "e" | .restore => "r" | .comp => "c"
+  | .call _ => "k" | .exit _ => "x" | .other _ => "o"
+
+def findWindow (site : String) : Option Window :=
+  StructC06.windows.find? (·.site == site)
+
+/-- contents of the shared array before every step of the block and at the end, on the real
+content (integers, `inf` coded as `-1`), `c` = the temporary constant -/
+def windowTrace (w : Window) (c : Int) (x : List (List Int)) : List (List Int) :=
+  match w.form with
+  | .maskInf => wtrace (maskOps (· == (-1 : Int)) c (-1)) ⟨x.flatten, [], [], [], false⟩ w.steps
+  | .diagInfZero => (wtrace (diagOps c (0 : Int)) ⟨x, (), [], [], false⟩ w.steps).map List.flatten
+
 def answer (toks : List String) : String :=
   match toks with
+  | ["wok"] => if windowsOK StructC06.windows then "1" else "0"
+  | ["woffenders"] => let o := windowOffenders StructC06.windows
+      if o.isEmpty then "-" else join o ","
+  | ["wsteps", site] => match findWindow site with
+      | none => "no-window"
+      | some w => join (w.steps.map stepLetter) ""
+  | ["wtrace", site, c, content] => match findWindow site with
+      | none => "no-window"
+      | some w => join ((windowTrace w (c.toInt?.getD 0) (intMat content)).map showInts) "|"
   | ["clean"] => if effectsClean StructC06.effects then "1" else "0"
   | ["offenders"] => let o := offenders StructC06.effects
       if o.isEmpty then "-" else join o ","
